@@ -461,7 +461,15 @@ def rule_R6(ctx):
         W.received_consumed(ctx, P, fam, c[0], "R6")
 
 
+def rule_once(ctx):
+    """R6: a queued packet is analysed once: every round empties the batch it processed, in arrival order"""
+    from . import _workers as W
+    for crate, fam in (("huginn_net_tcp", "tcp"), ("huginn_net_http", "http"), ("huginn_net_tls", "tls")):
+        W.fifo_batch(ctx, ctx.program, crate, fam, "R6")
+
+
 def run(ctx):
+    rule_once(ctx)
     rule_R6(ctx)
     rule_R1(ctx)
     rule_R2(ctx)
